@@ -191,5 +191,74 @@ def job_dak(job):
             setattr(rg, name, orig)
 
 
+def replay_second_call(model):
+    """Two real calls in sequence at one reservoir temperature with different pseudocritical points: the second
+    result must be a root of the equation at ITS OWN reduced temperature."""
+    from bluebonnet.fluids import gas
+    m = model_floats(model, ["Tr", "pr", "TpcR", "ppc", "TpcR2", "ppc2", "pr2"], default=dict(TpcR=380.0, ppc=650.0, TpcR2=340.0, ppc2=670.0, pr2=4.0))
+    Tabs = m["Tr"] * m["TpcR"]
+    T = Tabs - 459.67
+    try:
+        gas.z_factor_DAK(T, m["pr"] * m["ppc"], m["TpcR"] - 459.67, m["ppc"])
+        z2 = float(gas.z_factor_DAK(T, m["pr2"] * m["ppc2"], m["TpcR2"] - 459.67, m["ppc2"]))
+    except Exception as ex:  # noqa: BLE001
+        return False, {"what": f"z_factor_DAK raised {ex!r}", "inputs": m}
+    Tr2 = Tabs / m["TpcR2"]
+    rho = 0.27 * m["pr2"] / (z2 * Tr2)
+    res = dak_residual(rho, Tr2, m["pr2"], math.exp, num=float, deviation=True)
+    bad = abs(res) > 1e-6 * z2
+    return bad, {"what": f"after z_factor_DAK(T={T:.6g}, ..., Tpc={m['TpcR'] - 459.67:.6g}, ...) the call z_factor_DAK(T={T:.6g}, p={m['pr2'] * m['ppc2']:.6g}, "
+                         f"Tpc={m['TpcR2'] - 459.67:.6g}, ppc={m['ppc2']:.6g}) = {z2!r} leaves DAK residual {res!r} at its own T_r={Tr2:.6g}", "inputs": m}
+
+
+def job_history(job):
+    """The result of a call must not depend on earlier calls (no state carried between gases): two calls on one loaded
+    module with the same reservoir temperature object and different pseudocritical points / pressures."""
+    job.solve_defaults = {"elim": True}
+    gas = load_sym("bluebonnet.fluids.gas", **SS.rebind())
+    job.encoded(gas, "z_factor_DAK")
+    job.bound(history="two consecutive calls at one reservoir temperature")
+    vs, dom = box(job, Tr=("1.05", 3), pr=(0, 30), TpcR=(250, 900), ppc=(200, 1500), TpcR2=(250, 900), ppc2=(200, 1500), pr2=(0, 30))
+    for n in ("pr", "TpcR", "ppc", "TpcR2", "ppc2", "pr2"):
+        T.atom_by_id(next(iter(P(vs[n]).atoms()))).pos = True
+        dom.append(T.b_lt(T.ZERO, P(vs[n])))
+    Tabs = vs["Tr"] * vs["TpcR"]
+    Tr2 = Tabs / vs["TpcR2"]
+    dom += [T.b_le(T.Poly.const(Fraction("1.05")), P(Tr2)), T.b_le(P(Tr2), T.Poly.const(3))]
+    Tin = Tabs - K("459.67")
+
+    def run():
+        SS.OptCalls.reset()
+        SS.reset_names()
+        SS.OptCalls.brentq_sign_decision = False
+        gas.z_factor_DAK(Tin, vs["pr"] * vs["ppc"], vs["TpcR"] - K("459.67"), vs["ppc"])
+        n1 = len(SS.OptCalls.brentq) + len(SS.OptCalls.minimize)
+        z2 = gas.z_factor_DAK(Tin, vs["pr2"] * vs["ppc2"], vs["TpcR2"] - K("459.67"), vs["ppc2"])
+        calls = list(SS.OptCalls.brentq) + list(SS.OptCalls.minimize)
+        return z2, calls[n1:]
+
+    res = paths(job, run, dom, catch=(ValueError, ZeroDivisionError, ArithmeticError))
+    done = 0
+    for k, pr_ in enumerate(res):
+        if pr_.exc is not None:
+            continue
+        z2, calls = pr_.value
+        if len(calls) != 1 or "root" not in calls[0]:
+            continue        # minimiser form: the single-call job reports on it
+        rho = calls[0]["root"]
+        T.atom_by_id(next(iter(P(rho).atoms()))).pos = True
+        pc = pr_.pc + [T.b_lt(T.ZERO, P(rho))]
+        F_dev = dak_residual(rho, Tr2, vs["pr2"], s_exp, deviation=True)
+        bound = T.Poly.const(Fraction(1, 20 * 10**9))
+        job.prove(f"dak/second call at the same reservoir temperature is a root at its own T_r[path{k}]",
+                  pc + [T.b_or(T.b_lt(bound, P(F_dev)), T.b_lt(bound, T.p_neg(P(F_dev))))], bound="rectangle x rectangle", replay=replay_second_call)
+        job.prove(f"dak/second call: Z-formula[path{k}]", pc + [not_close(z2 * rho * Tr2, K("0.27") * vs["pr2"])], bound="rectangle x rectangle",
+                  replay=replay_second_call)
+        job.prove(f"dak/second call/reach[path{k}]", pc, expect="sat")
+        done += 1
+    if not done and any("root" in c for r in res if r.exc is None for c in r.value[1]):
+        job.errors.append("history: no path with two completed calls")
+
+
 def jobs(tier):
-    return [("dak", job_dak)]
+    return [("dak", job_dak), ("history", job_history)]
